@@ -215,7 +215,7 @@ func explain(init mstate, kept, all []opRec) (shape string, witness, ctx []strin
 		if lastLock != nil {
 			w = append(w, describe(*lastLock))
 		}
-		failed, succeeded, others := 0, 0, 0
+		failed, succeeded, failedUnlock, others := 0, 0, 0, 0
 		for _, x := range all {
 			if isObs(x) || !overlaps(x, o) {
 				continue
@@ -226,6 +226,9 @@ func explain(init mstate, kept, all []opRec) (shape string, witness, ctx []strin
 				failed++
 			case x.Kind == "setpasswd":
 				succeeded++
+			case x.Kind == "unlock" && !x.OK:
+				failedUnlock++
+				others++
 			default:
 				others++
 			}
@@ -239,6 +242,8 @@ func explain(init mstate, kept, all []opRec) (shape string, witness, ctx []strin
 			during = "-during-successful-setpasswd"
 		case succeeded > 0 && failed > 0:
 			during = "-during-setpasswd"
+		case failedUnlock > 0:
+			during = "-during-failed-unlock"
 		case lastUnlock == nil:
 			during = "-without-unlock"
 		default:
@@ -273,7 +278,7 @@ func explain(init mstate, kept, all []opRec) (shape string, witness, ctx []strin
 func run(c *lib.Ctx) {
 	c.Rule("history i: 4-16 concurrent clients (direct wallet calls and requests through the queue API) issue a PRNG-generated mix of Unlock(right/wrong password, timeout 0/1 s, ticket-only), Lock, " +
 		"SetPasswd(right/wrong old, valid/invalid new), Status (GetWalletStatus / IsWalletLocked / CheckWalletStatus), DumpPrivkey, SignRawTx, GetSeed, plus status pollers; " +
-		"a delay hook (0.1-2 ms, per history) widens ProcWalletSetPasswd before the old-password check; the history ends with sequential probes (Lock, Unlock with every pool password). " +
+		"a delay hook (0.1-2 ms, per history) widens ProcWalletSetPasswd and ProcWalletUnLock just before their password checks; the history ends with sequential probes (Lock, Unlock with every pool password). " +
 		"Each history (client-boundary call/return timestamps) is checked by porcupine against the model {unlocked, password}; illegal histories are reduced to one unjustifiable observation plus the successful state-changing requests. " +
 		"non-trivial = >=1 informative observation (unlocked / successful key, seed or sign request) overlapped a state-changing request (Unlock, Lock, SetPasswd incl. failed); " +
 		"fingerprint = order of calls and their results")
